@@ -250,17 +250,22 @@ func (st *StateTransition) TransitionDb() (*kvm.ExecutionResult, error) {
 	)
 	// Check clauses 4-5, subtract intrinsic gas if everything is correct
 	isGalaxias := st.vm.ChainConfig().IsGalaxias(&height)
+	// NOTE: preCheck has taken the message's gas from the block gas pool. A message rejected below is skipped by
+	// the block processing, which reverts the state but not the pool, so the gas is handed back here.
 	gas, err := tx_pool.IntrinsicGas(st.data, contractCreation, !isGalaxias)
 	if err != nil {
+		st.gp.AddGas(st.initialGas)
 		return nil, err
 	}
 	if st.gas < gas {
+		st.gp.AddGas(st.initialGas)
 		return nil, tx_pool.ErrIntrinsicGas
 	}
 	st.gas -= gas
 
 	// Check clause 6
 	if msg.Value().Sign() > 0 && !st.vm.CanTransfer(st.state, msg.From(), msg.Value()) {
+		st.gp.AddGas(st.initialGas)
 		return nil, tx_pool.ErrInsufficientFundsForTransfer
 	}
 
